@@ -27,25 +27,21 @@ structure Cache where
   g : List (Key × Int) := []
   log : List RecEv := []
 
-def Cache.evOf (c : Cache) (k : Key) : List (Nat × Bucket) := (c.ev.lookup k).getD []
+/-- the event lists are kept newest first (appending to the end of a long list per op would be quadratic) -/
+def Cache.evRev (c : Cache) (k : Key) : List (Nat × Bucket) := (c.ev.lookup k).getD []
+def Cache.evOf (c : Cache) (k : Key) : List (Nat × Bucket) := (c.evRev k).reverse
 def Cache.gOf (c : Cache) (k : Key) : Int := (c.g.lookup k).getD 0
 
-/-- extend the cache by op `x` after history `r` (the ledger's own `contrib` / `gaugeDelta` / `recContrib`) -/
-def Cache.push (c : Cache) (fix : Bool) (r : List TOp) (x : TOp) : Cache :=
+/-- extend the cache by op `x` whose addressed id has the account `i` so far: the ledger's own `contribI` /
+    `gaugeDeltaI` / `recContribI`, i.e. `evs (x :: r) k = evs r k ++ contribI fix (info r x.2.addr) (gauge fix r k) x k` etc. -/
+def Cache.push (c : Cache) (fix : Bool) (i : Option Info) (x : TOp) : Cache :=
   let keys := match x.2 with
     | .entry e => if c.keys.contains (some e.res) then c.keys else c.keys ++ [some e.res]
     | _ => c.keys
-  -- `contrib` of an entry op reads `gauge fix r k`: hand it the cached value through the definition's own unfolding
-  let ev := keys.map fun k => (k, c.evOf k ++ (match x.2 with
-    | .entry e =>
-      if (info r e.id).isNone && touches e k then
-        match outcome e.chain with
-        | .block => [(x.1, evBucket .block e.batch)]
-        | o => if o = .pass || fix then [(x.1, concBucket (c.gOf k + 1)), (x.1, evBucket .pass e.batch)] else []
-      else []
-    | _ => contrib fix r x k))
-  let g := keys.map fun k => (k, c.gOf k + gaugeDelta fix r x k)
-  { keys := keys, ev := ev, g := g, log := c.log ++ recContrib fix r x }
+  { keys := keys,
+    ev := keys.map fun k => (k, (contribI fix i (c.gOf k) x k).reverse ++ c.evRev k),
+    g := keys.map fun k => (k, c.gOf k + gaugeDeltaI fix i x k),
+    log := c.log ++ recContribI fix i x }
 
 structure D where
   fix : Bool := false        -- `VERIF_C01_FIX=1`: the known finding no longer reproduces, use the repaired variant
@@ -62,6 +58,8 @@ structure D where
   drF : Nat := 0
   cT : Cache := {}
   cF : Cache := {}
+  infos : List (Nat × Info) := []      -- spec: `info d.h id`, kept incrementally with `infoStep` (newest binding first)
+  created : List String := []           -- spec: the resources `r` with `nodeExists d.h r`
 
 def parseChain? (s : String) : Option Chain :=
   match s.splitOn "/" with
@@ -94,11 +92,11 @@ def windowLo (Iv now : Nat) : Nat := cbs bucketLen now + bucketLen - Iv
 
 /-- spec-side window payload from the cached event list (`ledWindow` with the cache in place of `evs`) -/
 def specWindow (d : D) (c : Cache) (k : Key) (Iv : Nat) : Option Bucket :=
-  let present := match k with | none => true | some r => nodeExists d.h r
+  let present := match k with | none => true | some r => d.created.contains r
   if present then some (refW bucketLen (c.evOf k) (windowLo Iv d.now) (cbs bucketLen d.now)) else none
 
 def specConc (d : D) (c : Cache) (k : Key) : Option Int :=
-  let present := match k with | none => true | some r => nodeExists d.h r
+  let present := match k with | none => true | some r => d.created.contains r
   if present then some (c.gOf k) else none
 
 /-- answer of the spec: the demanded value, flagged when the as-is account differs from it -/
@@ -122,15 +120,15 @@ def defaultChain (d : D) (spec : Bool) (res : String) (batch : Nat) (args : List
     else match findN d.st.nodes res with
       | some n => n.conc
       | none => 0
-  let blocked := match d.iso.lookup res with
-    | some T => decide (conc.toNat + batch > T)
-    | none => false
-  let panics := d.hot.contains res && (match args.head? with | some a => a.startsWith "u:" | none => false)
-  { pre := [.node], rules := [if blocked then .block else if panics then .panic else .pass], std := true, recs := [] }
+  { pre := [.node], rules := [defaultRule (d.iso.lookup res) (d.hot.contains res) conc batch args], std := true, recs := [] }
 
 def apply (d : D) (spec : Bool) (op : Op) : D :=
   let x : TOp := (d.now, op)
-  if spec then { d with cT := d.cT.push true d.h x, cF := d.cF.push false d.h x, h := x :: d.h }
+  if spec then
+    let i := d.infos.lookup op.addr
+    { d with cT := d.cT.push true i x, cF := d.cF.push false i x, h := x :: d.h,
+             infos := (match infoStep x i with | some j => (op.addr, j) :: d.infos | none => d.infos),
+             created := (match nodeNewI i x with | some r => if d.created.contains r then d.created else r :: d.created | none => d.created) }
   else { d with st := Sentinel.Entry.step d.fix d.st x, h := x :: d.h }
 
 /-- the soak's pseudo-random choices (same generator on the Go side) -/
@@ -159,7 +157,7 @@ def soakOps (d : D) (spec : Bool) (G N R seed idBase : Nat) : D := Id.run do
   return d
 
 def known (d : D) (spec : Bool) (id : Nat) : Bool :=
-  if spec then (info d.h id).isSome else (findE d.st.ents id).isSome
+  if spec then (d.infos.lookup id).isSome else (findE d.st.ents id).isSome
 
 def step (spec : Bool) (d : D) (ts : List String) (_ : String) : D × Option String :=
   match ts with
@@ -180,7 +178,7 @@ def step (spec : Bool) (d : D) (ts : List String) (_ : String) : D × Option Str
         | some ch =>
           let e : EntryOp := { id := id, res := res, inbound := dir = "in", batch := batch, args := args, chain := ch }
           let d' := apply d spec (.entry e)
-          let r := if spec then ledEntered d'.h id else obsEntered d'.st id
+          let r := if spec then (d'.infos.lookup id).map (fun i => decide (outcome i.e.chain ≠ .block)) else obsEntered d'.st id
           (d', some (match r with | some true => "pass" | some false => "block" | none => "bad-op"))
       | _, _, _ => (d, some "bad-op")
   | ["trace", id, err] => match id.toNat? with
@@ -221,13 +219,11 @@ def step (spec : Bool) (d : D) (ts : List String) (_ : String) : D × Option Str
         if what ≠ "err" && what ≠ "args" then (d, some "bad-op") else
         let sh (v : Option String × List String) : String := if what = "err" then showErr v.1 else showList v.2
         if spec then
-          match info d.h id with
+          match d.infos.lookup id with
           | none => (d, some "bad-op")
           | some i =>
             if outcome i.e.chain = .block then (d, some "nil") else
-            match ledCtx d.h id with
-            | none => (d, some "exited")
-            | some v => (d, some (sh v))
+            if i.done then (d, some "exited") else (d, some (sh (i.err, i.e.args)))
         else
           match findE d.st.ents id with
           | none => (d, some "bad-op")
